@@ -232,14 +232,22 @@ pub fn random_trace(seed: u64) -> Trace {
         s.push(Step::Call(Op::SetPref("CheckRuleFiles".into(), "All".into())));
     }
     let n_valid = pools::VALID_EXPRS.len();
-    let first = if rng.chance(0.35) { ExprRef::Corpus(rng.below(pools::corpus().len())) } else { ExprRef::Pool(rng.below(n_valid)) };
+    let first = if rng.chance(0.2) {
+        gen_expr(&mut rng)
+    } else if rng.chance(0.25) {
+        ExprRef::Corpus(rng.below(pools::corpus().len()))
+    } else {
+        ExprRef::Pool(rng.below(n_valid))
+    };
     s.push(Step::Call(Op::SetMathml(first)));
     let n = rng.range(6, 60);
     for _ in 0..n {
         match rng.below(20) {
             0..=3 => s.push(Step::Call(Op::Cmd(crate::props::c11::random_nav_command(&mut rng)))),
             4 => s.push(Step::Call(Op::SetNavNode(if rng.chance(0.9) { IdRef::Nth(rng.below(30)) } else { IdRef::Stale(rng.below(10)) }, *rng.pick(&[0usize, 0, 1, 2, 3, 7])))),
-            5 => s.push(Step::Call(Op::SetMathml(if rng.chance(0.3) {
+            5 => s.push(Step::Call(Op::SetMathml(if rng.chance(0.2) {
+                gen_expr(&mut rng)
+            } else if rng.chance(0.25) {
                 ExprRef::Corpus(rng.below(pools::corpus().len()))
             } else if rng.chance(0.85) {
                 ExprRef::Pool(rng.below(n_valid))
